@@ -4,13 +4,13 @@
 # (no `git stash`: the stash is shared by all worktrees of a repository)
 set -u
 P=$1; NAME=${2:-$P-agent}
-WT=/tmp/wt/$P
+WT=${WT_ROOT:-/tmp/wt}/$P
 OUT=/verif/seeded/$NAME
 mkdir -p $OUT
 cd $WT || exit 2
 LOG=$OUT/confirm.log
 : > $LOG
-DEMO=$(ls rust/ommx/tests/seeded_${P}*.rs 2>/dev/null | head -1)
+DEMO=$(ls rust/ommx/tests/seeded*_${P}*.rs 2>/dev/null | head -1)
 echo "demo: $DEMO" >> $LOG
 git diff -- . ':!BRIEF.txt' ':!patch.diff' > $OUT/patch.diff
 echo "== with change: lib tests" >> $LOG
